@@ -21,6 +21,11 @@ def run(repo, chk, tier):
 
     # the polynomial table generator is memoised and consulted by the numeric and the symbolic side
     check_cache_ownership(repo, chk, ["tf_pwa/breit_wigner.py"], 1, 2)
+    # the angular momentum of the running width must be this decay's own: a memoised helper keyed by particle names
+    # hands a second resonance of the same name the L of the first (shared with C04 / C05)
+    from ..cacheown import check_memo_soundness
+
+    check_memo_soundness(repo, chk)
     check_bw_tables(repo, chk, tier)
     try:
         check_kernels(repo, chk, tier)
